@@ -41,6 +41,47 @@ def apply_call(s, c):
     return getattr(s, name)(*c[1:])
 
 
+WARM = False
+
+
+def set_warm(flag):
+    """Warm mode: every intermediate schema object a term is built from is first *used* through
+    the public, supposedly pure operations (repr, ==, validate, fake) before it is refined,
+    combined or substituted into.  By C07 this must change nothing; state cached on instances,
+    visitors or modules by those operations is thereby carried into whatever is derived next."""
+    global WARM
+    WARM = bool(flag)
+
+
+_WARM_PROBES = (None, 0, "a", [], {})
+
+
+def warm(s):
+    if not isinstance(s, Schema):
+        return s
+    from d42 import fake, represent, validate
+    for op in (lambda: repr(s), lambda: represent(s), lambda: s == s, lambda: hash(s)):
+        try:
+            op()
+        except Exception:  # noqa: BLE001 - warming never judges
+            pass
+    for v in _WARM_PROBES:
+        try:
+            validate(s, v)
+        except Exception:  # noqa: BLE001
+            pass
+    try:
+        from . import e2
+        if isinstance(e2.R_MOD.random, e2.Scripted):
+            rng = e2.R_MOD.random
+            saved = (rng.prefix, rng.trace, rng.sites)
+            e2.run_once(rng, lambda: fake(s), ())
+            rng.prefix, rng.trace, rng.sites = saved
+    except Exception:  # noqa: BLE001
+        pass
+    return s
+
+
 class Builder:
     """Builds real schemas from terms and remembers id(object) -> term for what it created."""
 
@@ -53,6 +94,8 @@ class Builder:
         if self.track:
             self.ids[id(obj)] = term
             self.keep.append(obj)
+        if WARM:
+            warm(obj)
         return obj
 
     def build(self, t):
@@ -62,6 +105,8 @@ class Builder:
         if k in SCALARS:
             s = getattr(schema, k)
             for c in t[1]:
+                if WARM:
+                    warm(s)
                 s = apply_call(s, c)
             return self._note(s, t)
         if k == "list":
@@ -73,6 +118,8 @@ class Builder:
                 else:
                     s = s([x if x is E else self.build(x) for x in spec[1]])
             for c in calls:
+                if WARM:
+                    warm(s)
                 s = apply_call(s, c)
             return self._note(s, t)
         if k == "dict":
